@@ -504,9 +504,10 @@ def get_module(run, twin=None):
                 first = z3.And(Exists(fn.r, z3.IntVal(ci)), z3.ForAll([r2, c2], z3.Implies(z3.And(r2 > fn.r, r2 < roots.n, c2 >= 0, c2 < NC), z3.Not(Exists(r2, c2)))))
             prove('first-root-with-a-candidate', first, clause='the file analysed is the candidate of the first root that has one', path=p)
             r3 = z3.Int('pr')
-            prove('no-earlier-root-holds-the-parent', z3.ForAll([r3], z3.Implies(z3.And(r3 >= 0, r3 < fn.r), z3.Not(ParentAt(r3)))),
-                  clause='importlib searches a dotted name only inside the parent it resolved first: no earlier root may hold the parent '
-                         '(as a module, or as a package without this child)', path=p)
+            if core.RUN.prop == 'C07':        # agreement with importlib is C07's clause; C09 compares with a fresh project only
+                prove('no-earlier-root-holds-the-parent', z3.ForAll([r3], z3.Implies(z3.And(r3 >= 0, r3 < fn.r), z3.Not(ParentAt(r3)))),
+                      clause='importlib searches a dotted name only inside the parent it resolved first: no earlier root may hold the parent '
+                             '(as a module, or as a package without this child)', path=p)
             prove('source-candidates-are-analysed-as-source', z3.And(z3.BoolVal(fn.kind[1] in ('.py', '__init__.py')), z3.Not(dyn)),
                   clause='only .py files / package __init__.py of non-dynamic names are analysed as source', path=p)
         elif m[0] == 'imported':
